@@ -56,6 +56,9 @@ func c16Gen(rng *rand.Rand, tier string, w *bufio.Writer) {
 	c++
 	fmt.Fprintf(w, "case %d life i\nset a x\ntick arm\ntick go\nspawn A set b y\ngo A\ngo A\nclose\nreopen\n", c)
 	c++
+	// sequential: delete, re-create, delete on a key that is in the file
+	fmt.Fprintf(w, "case %d life d\nset c x\nset a x\nclose\ndel c\nset c y\ndel c\nclose\nreopen\n", c)
+	c++
 	keys := []string{"a", "b", "c"}
 	vals := []string{"x", "y"}
 	for i := 0; i < seq; i++ {
